@@ -7,6 +7,8 @@ import (
 	"strconv"
 	"sync"
 
+	"github.com/ethereum/go-ethereum/rlp"
+
 	"verifharness/replay"
 
 	"github.com/Fantom-foundation/lachesis-base/inter/idx"
@@ -30,18 +32,45 @@ func ints(v interface{}) []int {
 	return out
 }
 
-func newCounter(pre interface{}) (replay.Inst, error) {
-	p := pre.(map[string]interface{})
-	b := pos.NewBuilder()
-	for i, w := range ints(p["vw"]) {
-		b.Set(idx.ValidatorID(i+1), pos.Weight(w))
+// derive returns the validator set the way a caller may have obtained it: as built, as a copy, through a derived
+// builder, or decoded from its RLP encoding. The specification speaks of validator sets, however they were obtained.
+func derive(v *pos.Validators, via string) (*pos.Validators, error) {
+	switch via {
+	case "copy":
+		return v.Copy(), nil
+	case "builder":
+		return v.Builder().Build(), nil
+	case "rlp":
+		enc, err := rlp.EncodeToBytes(v)
+		if err != nil {
+			return nil, err
+		}
+		d := &pos.Validators{}
+		if err := rlp.DecodeBytes(enc, d); err != nil {
+			return nil, err
+		}
+		return d, nil
 	}
-	v := b.Build()
-	in := &counterInst{v: v, c: v.NewCounter()}
-	for _, id := range ints(p["counted"]) {
-		in.c.Count(idx.ValidatorID(id))
+	return v, nil
+}
+
+func newCounterVia(via string) func(pre interface{}) (replay.Inst, error) {
+	return func(pre interface{}) (replay.Inst, error) {
+		p := pre.(map[string]interface{})
+		b := pos.NewBuilder()
+		for i, w := range ints(p["vw"]) {
+			b.Set(idx.ValidatorID(i+1), pos.Weight(w))
+		}
+		v, err := derive(b.Build(), via)
+		if err != nil {
+			return nil, err
+		}
+		in := &counterInst{v: v, c: v.NewCounter()}
+		for _, id := range ints(p["counted"]) {
+			in.c.Count(idx.ValidatorID(id))
+		}
+		return in, nil
 	}
-	return in, nil
 }
 
 func (in *counterInst) Close() {}
@@ -89,6 +118,14 @@ func init() {
 				vs := b.Build()
 				r.eq("quorum:built", "one-member set of weight t: Quorum()", vec, q, uint32(vs.Quorum()))
 				r.eq("quorum:total", "one-member set of weight t: TotalWeight()", vec, t, uint32(vs.TotalWeight()))
+				for _, via := range []string{"copy", "builder", "rlp"} {
+					d, err := derive(vs, via)
+					if err != nil {
+						return err
+					}
+					r.eq("quorum:derived-"+via, "the same set obtained by "+via+": Quorum()", vec, q, uint32(d.Quorum()))
+					r.eq("quorum:derived-"+via+"-total", "the same set obtained by "+via+": TotalWeight()", vec, t, uint32(d.TotalWeight()))
+				}
 				r.Counts["totals"]++
 				if t >= 1<<30 {
 					r.Counts["totals_ge_2p30"]++
@@ -252,5 +289,6 @@ func CmdSweep(args []string) int {
 }
 
 func CounterAdapters() []replay.Adapter {
-	return []replay.Adapter{{Name: "weightcounter", New: newCounter}}
+	return []replay.Adapter{{Name: "weightcounter", New: newCounterVia("")}, {Name: "weightcounter-copy", New: newCounterVia("copy")},
+		{Name: "weightcounter-builder", New: newCounterVia("builder")}, {Name: "weightcounter-rlp", New: newCounterVia("rlp")}}
 }
